@@ -232,6 +232,76 @@ CLAIMED["C07"] = (
     "DESIGN.md §4 C07",
 )
 
+CLAIMED["C04"] = (
+    "The real Storage<ArrStorage> (all public mutating methods, the record table half of StorageRecords, the open path) "
+    "is run on concrete layouts that set up every branch of the space-reuse logic -- exact fit, split with remainders of "
+    "0/1/16/17 bytes around the 16-byte header, grow in place with and without remainder, relocate into a free region, "
+    "move to the end with merging of both neighbours, shrink with remainder 15/16/17, removal in the middle/at the end, "
+    "index reuse -- with symbolic payload bytes and symbolic garbage in free regions, mirrored in a reference model. "
+    "After every step the solver decides: every live index reads back its model bytes, dead indexes are unreadable, the "
+    "file is exactly tiled by version record + live records + free regions (checked on the raw bytes), free size adds up, "
+    "and no back-end write starts beyond the end or straddles it (the precondition C01 and C06 rely on); then "
+    "optimize_storage leaves exactly 24 + sum(16 + size) bytes, and a reopen from a copy of the bytes sees the same values.",
+    "Sizes, targets and operation kinds are enumerated at the boundary values; only contents are symbolic (a symbolic size "
+    "after a 5-operation prefix exhausted 10 GB). The free-space indexes of StorageRecords (take_free, take_free_after, "
+    "mark_free_compact: BTreeMap<u64, BTreeSet<u64>>) cannot be executed by CBMC at all (one insertion exhausts 10 GB); in "
+    "the Storage harnesses they are replaced by a contract model (a plain region list, documented in "
+    "storage_records_h.rs) -- so a defect INSIDE those three functions is invisible to this check. Back end: ArrStorage "
+    "(the others enter through C06). Stubs: fmt::format, DbError::new, slice stable sort (insertion sort).",
+    "DESIGN.md §4 C04",
+)
+CLAIMED["C32"] = (
+    "Storage-level mechanism of the property: each of the seven mutating Storage operations is run with the k-th back-end "
+    "write/resize failing, for every k (enumerated) plus 'no failure'; if the operation returns Err the storage's "
+    "transaction nesting must be back at its value before the call, and the next successful operation must reach "
+    "StorageData::flush (which is what clears the recovery log of a file-backed database). On the current tree this fails "
+    "for all seven operations -- a genuine defect, listed per operation in KNOWN_FINDINGS.txt with a reproducer note -- so "
+    "the check currently passes only by reporting those known findings; any other failing check is still a violation.",
+    "Outside: DbImpl rollback of the failed query, reopen of the database, 'has no effect' at query level (DbImpl).",
+    "DESIGN.md §4 C32",
+)
+SER_NOTE = (
+    "Lengths and enum variants are enumerated per harness (a length read back from a heap buffer is symbolic to CBMC even "
+    "when constant, and a symbolic variant walks every arm); contents are symbolic. Stubs beyond fmt::format/DbError::new: "
+    "String::from_utf8 (accept-all in the round-trip harnesses, which compare the decoded bytes with the valid original; "
+    "nondeterministic Ok/Err in the arbitrary-bytes harnesses; the real validator is exercised separately), and in the "
+    "'bounded' arbitrary-bytes harnesses usize::deserialize with an assumed prefix <= 2^32-1 (the huge-prefix space is "
+    "covered by four dedicated harnesses)."
+)
+CLAIMED["C20"] = (
+    "deserialize(serialize(x)) == x (floats by bits) and serialize(x).len() == serialized_size(x) (== the sum of the "
+    "parts, == serialized_size_static where defined) for: all fixed-size scalars over their full range, strings (ASCII "
+    "0..=6 bytes, every valid UTF-8 string of 0..=4 bytes), byte vectors, SystemTime on both sides of the epoch, vectors "
+    "of 0..=2 elements of each element type, all nine DbValue variants, DbKeyValue, DbId, QueryId, CountComparison, "
+    "Comparison, DbKeyOrder, KeyValueComparison, the non-recursive QueryConditionData variants, and a corpus of types "
+    "using #[derive(DbSerialize)]: named/tuple/unit structs, enum with unit/tuple/struct variants, nested and generic.",
+    SER_NOTE + " Outside: SocketAddr/IpAddr/PathBuf, the recursive QueryCondition (Where), longer payloads.",
+    "DESIGN.md §4 C20",
+)
+CLAIMED["C21"] = (
+    "Every deserializer in the list of C20 is fed a buffer of symbolic length <= 24 with symbolic bytes (variant tags "
+    "pinned per harness for the DbValue-based types) and must return Ok or Err -- no panic, no arithmetic overflow "
+    "(dev-profile semantics), no capacity overflow; for fixed-size types Ok exactly when enough bytes are present. Four "
+    "harnesses isolate the huge-length-prefix and out-of-range-time inputs that used to panic (now repaired in /repo) and "
+    "act as regression guards; typed conversions of byte-array values (user type / SystemTime from DbValue::Bytes) included.",
+    SER_NOTE + " An allocation that is absurd but below CBMC's object-size limit and does not trip std's capacity check is "
+    "not observable. Outside: fully arbitrary bytes for DbValue/DbKeyValue/Comparison/QueryCondition (untagged), "
+    "Vec<i64>::try_from(DbValue::Bytes) (time-out).",
+    "DESIGN.md §4 C21",
+)
+CLAIMED["C22"] = (
+    "The code generated by #[derive(DbType / DbElement / DbValue / DbTypeMarker)] for a corpus of user types in the "
+    "harness (i64, u64, f64, bool, String, Option<i64>, db_id as Option<DbId> / Option<QueryId> / DbId, a nested custom "
+    "value type, flatten/rename/skip attributes): T::from_db_element(DbElement{id, values: t.to_db_values()}) == t for "
+    "symbolic field values, db_keys() are the field names in declaration order, None options are omitted and restored, "
+    "db_id is taken from the element id and never stored, derive(DbElement) adds the type name.",
+    "<DbValue as Clone>::clone is replaced by a bitwise copy in the from_db_element harnesses (the derived Clone over nine "
+    "variants exhausts memory; the harnesses never look at the source after the copy). Outside: the trip through the "
+    "database (insert().element()/select().elements(), update by id) -- DbImpl; from_db_element for vector and "
+    "Option<String> fields (memory), only their to_db_values half is checked.",
+    "DESIGN.md §4 C22",
+)
+
 NOT_APPLICABLE = {
 }
 
